@@ -515,6 +515,9 @@ func (ex *executor) apiStep(idx int, st *Step) {
 			}
 		}
 		if rec := ex.memLast(a.Fn); rec != nil {
+			if len(rec.Dest) > 1 && strings.HasSuffix(rec.Dest, "/") && !strings.HasSuffix(a.Dest, "/") {
+				bad("backend-args:"+a.Fn, fmt.Sprintf("backend %s received the destination %q with a trailing slash the caller did not write (%q)", a.Fn, rec.Dest, a.Dest))
+			}
 			if rec.Name != sp || model.Normalise(rec.Dest).Path != wantDest || rec.NoOverwrite != noOw || (a.Fn == "Copy" && rec.NoRecursive != noRec) {
 				bad("backend-args:"+a.Fn, fmt.Sprintf("backend %s received (%q, %q, no-recursive=%v, no-overwrite=%v); the caller asked for (%q = %q, %q = %q, no-recursive=%v, no-overwrite=%v)", a.Fn, rec.Name, rec.Dest, rec.NoRecursive, rec.NoOverwrite, a.Name, sp, a.Dest, wantDest, noRec, noOw))
 			}
